@@ -12,9 +12,10 @@ VARIABLES l,        \* next trace line
           mem, levels, files,
           all,      \* every entry ever written (the history)
           gcd,      \* entries discarded by garbage collection
-          lastKind  \* kind of the last consumed event (for coverage / diagnostics)
+          lastKind, \* kind of the last consumed event (for coverage / diagnostics)
+          devUsed   \* named deviations (known findings, constant Dev) this run has exercised
 
-vars == <<l, keys, mem, levels, files, all, gcd, lastKind>>
+vars == <<l, keys, mem, levels, files, all, gcd, lastKind, devUsed>>
 
 E(t) == [k |-> t[1], ts |-> t[2], v |-> t[3]]
 ESet(s) == {E(s[i]) : i \in 1..Len(s)}
@@ -31,33 +32,41 @@ NoErr == ~("err" \in DOMAIN Ev)
 
 \* reads logged with the event agree with the property (ideal), evaluated on the successor state
 GetCode(c) == IF c <= 0 THEN 0 ELSE c
+\* While no deviation has been exercised, reads must equal the property (the latest write).  Once a
+\* listed deviation has fired, the tree's level order is known to be off; reads are then held to the
+\* mechanism (the transcription of Version::load / range_scan on the logged levels), so that a
+\* second, different defect still shows.
 ReadsOk(ev, all2, ks) ==
-  /\ G("get = latest write (C01)", \A k \in ks : GetCode(ev.gets[k]) = Visible(Newest(all2, k, MAXTS)))
-  /\ G("forward scan = live keys (C03)", [i \in 1..Len(ev.scan) |-> E(ev.scan[i])] = IdealScan(all2, Unb, Unb, MAXTS))
-  /\ G("backward scan = live keys reversed (C03)", [i \in 1..Len(ev.rscan) |-> E(ev.rscan[i])] = Reverse(IdealScan(all2, Unb, Unb, MAXTS)))
+  IF devUsed' = {}
+  THEN /\ G("get = latest write (C01)", \A k \in ks : GetCode(ev.gets[k]) = Visible(Newest(all2, k, MAXTS)))
+       /\ G("forward scan = live keys (C03)", [i \in 1..Len(ev.scan) |-> E(ev.scan[i])] = IdealScan(all2, Unb, Unb, MAXTS))
+       /\ G("backward scan = live keys reversed (C03)", [i \in 1..Len(ev.rscan) |-> E(ev.rscan[i])] = Reverse(IdealScan(all2, Unb, Unb, MAXTS)))
+  ELSE /\ G("get = what the logged levels hold (mechanism, after a known deviation)",
+            \A k \in ks : GetCode(ev.gets[k]) = Visible(MechLoad(mem', levels', files', k, MAXTS)))
 
-TraceInit == /\ l = 1 /\ keys = {} /\ mem = {} /\ levels = <<>> /\ files = <<>> /\ all = {} /\ gcd = {} /\ lastKind = "none"
+TraceInit == /\ l = 1 /\ keys = {} /\ mem = {} /\ levels = <<>> /\ files = <<>> /\ all = {} /\ gcd = {} /\ lastKind = "none" /\ devUsed = {}
 
 \* "open" starts a new run: fresh database
 Open == /\ IsEvent("open") /\ NoErr
         /\ keys' = 1..Ev.nkeys
-        /\ mem' = {} /\ all' = {} /\ gcd' = {}
+        /\ mem' = {} /\ all' = {} /\ gcd' = {} /\ devUsed' = {}
         /\ files' = AddFiles(<<>>, Ev.newfiles, 1)
         /\ levels' = Ev.levels
         /\ Ids(levels') = {}
         /\ ReadsOk(Ev, {}, keys')
 
 Write == /\ IsEvent("write") /\ NoErr
+         /\ UNCHANGED <<keys, levels, files, gcd, devUsed>>
          /\ LET new == {[k |-> Ev.entries[i][1], ts |-> Ev.ts, v |-> Ev.entries[i][2]] : i \in 1..Len(Ev.entries)}
             IN /\ G("write timestamp above all earlier ones", \A e \in all : e.ts < Ev.ts)
                /\ mem' = mem \cup new
                /\ all' = all \cup new
                /\ G("write leaves the tree alone", Ev.levels = levels /\ Ev.newfiles = <<>>)
                /\ ReadsOk(Ev, all', keys)
-         /\ UNCHANGED <<keys, levels, files, gcd>>
 
 \* memtable flush: exactly one new file holding exactly the memtable
 Flush == /\ IsEvent("flush") /\ NoErr
+         /\ UNCHANGED <<keys, all, gcd, devUsed>>
          /\ Len(Ev.newfiles) = 1
          /\ files' = AddFiles(files, Ev.newfiles, 1)
          /\ levels' = Ev.levels
@@ -65,10 +74,10 @@ Flush == /\ IsEvent("flush") /\ NoErr
          /\ G("flushed file = memtable (C05)", files'[Ev.newfiles[1].id] = mem)
          /\ mem' = {}
          /\ ReadsOk(Ev, all, keys)
-         /\ UNCHANGED <<keys, all, gcd>>
 
 \* external ingest (LsmTree mode): one new file with the given entries; timestamps chosen by the driver
 Ingest == /\ IsEvent("ingest") /\ NoErr
+          /\ UNCHANGED <<keys, mem, gcd, devUsed>>
           /\ Len(Ev.newfiles) = 1
           /\ files' = AddFiles(files, Ev.newfiles, 1)
           /\ levels' = Ev.levels
@@ -76,10 +85,10 @@ Ingest == /\ IsEvent("ingest") /\ NoErr
           /\ files'[Ev.newfiles[1].id] = ESet(Ev.entries)
           /\ all' = all \cup ESet(Ev.entries)
           /\ ReadsOk(Ev, all', keys)
-          /\ UNCHANGED <<keys, mem, gcd>>
 
 \* one compaction-thread iteration: trivial move, merge, or garbage collection (or nothing)
 Compact == /\ IsEvent("compact") /\ NoErr
+           /\ UNCHANGED <<keys, mem, all, devUsed>>
            /\ files' = AddFiles(files, Ev.newfiles, 1)
            /\ levels' = Ev.levels
            /\ LET removed == Ids(levels) \ Ids(levels')
@@ -87,7 +96,6 @@ Compact == /\ IsEvent("compact") /\ NoErr
                   inE  == UNION {files'[id] : id \in removed}
                   outE == UNION {files'[id] : id \in added}
                   disc == inE \ outE
-                  topLevel == \E id \in added : \E i \in 1..Len(levels'[Len(levels')]) : levels'[Len(levels')][i] = id
               IN /\ G("compaction invents nothing (C05)", outE \subseteq inE)
                  /\ G("compaction outputs disjoint (C04)", \A a, b \in added : a # b => files'[a] \cap files'[b] = {})
                  /\ G("idle compaction step changes nothing", (~Ev.did) => levels' = levels)
@@ -95,51 +103,62 @@ Compact == /\ IsEvent("compact") /\ NoErr
                  /\ gcd' = gcd \cup disc
                  \* C05: a compaction that discards nothing leaves every read at every timestamp unchanged
                  /\ G("non-GC compaction keeps reads at every timestamp (C05)",
-                      disc = {} => \A k \in keys, t \in {e.ts : e \in all} :
+                      (disc = {} /\ devUsed = {}) => \A k \in keys, t \in {e.ts : e \in all} :
                                     TreeLoad(levels', files', k, t, 1) = TreeLoad(levels, files, k, t, 1))
            /\ ReadsOk(Ev, all, keys)
-           /\ UNCHANGED <<keys, mem, all>>
 
-\* clean close and reopen: the memtable comes back as an SST recovered from the log; levels are rebuilt
+\* clean close and reopen: the memtable comes back as an SST recovered from the log; levels are rebuilt.
+\* Known finding "RecoverLevelsFromMetadata" (when listed in Dev): recover() cannot tell from key and
+\* timestamp ranges alone which of two overlapping files was above the other and puts both into one
+\* level.  The deviation is admitted only in exactly that shape: the logged levels are those the
+\* transcription of recover() computes, and some level >= 1 holds overlapping files.
 Reopen == /\ IsEvent("reopen") /\ NoErr
+          /\ UNCHANGED <<keys, all, gcd>>
           /\ files' = AddFiles(files, Ev.newfiles, 1)
           /\ levels' = Ev.levels
           /\ IF mem = {} THEN Ids(levels') = Ids(levels)
              ELSE /\ Len(Ev.newfiles) = 1
                   /\ Ids(levels') = Ids(levels) \cup {Ev.newfiles[1].id}
-                  /\ files'[Ev.newfiles[1].id] = mem
+                  /\ G("recovered file = memtable (C02)", files'[Ev.newfiles[1].id] = mem)
           /\ mem' = {}
+          /\ LET rec == RecoverLevels(Ids(levels'), files', Len(levels'))
+                 asCoded == \A i \in 1..Len(levels') : SeqToSet(levels'[i]) = SeqToSet(rec[i])
+                 fires == "RecoverLevelsFromMetadata" \in Dev /\ ~LevelsDisjoint(levels', files') /\ asCoded
+             IN devUsed' = IF fires THEN devUsed \cup {(PrintT(<<"DEV-USED", "RecoverLevelsFromMetadata", l>>) :> "RecoverLevelsFromMetadata")[TRUE]}
+                           ELSE devUsed
           /\ ReadsOk(Ev, all, keys)
-          /\ UNCHANGED <<keys, all, gcd>>
 
 \* offline verifier pass: accepts (or asks to back off); contents unchanged
 Verify == /\ IsEvent("verify") /\ NoErr
-          /\ Ev.verdict \in {"ok", "backoff"}
+          /\ UNCHANGED <<keys, mem, levels, files, all, gcd, devUsed>>
+          /\ G("the verifier accepts what the store produced (C04)", Ev.verdict \in {"ok", "backoff"})
           /\ Ev.levels = levels /\ Ev.newfiles = <<>>
           /\ ReadsOk(Ev, all, keys)
-          /\ UNCHANGED <<keys, mem, levels, files, all, gcd>>
 
 \* a scan program: every observation equals the ideal cursor's
 ScanProg == /\ IsEvent("scanprog") /\ NoErr
+            /\ UNCHANGED <<keys, mem, levels, files, all, gcd, devUsed>>
             /\ LET ideal == IdealScan(all, B(Ev.lo), B(Ev.hi), MAXTS)
                    calls == [i \in 1..Len(Ev.calls) |-> Ev.calls[i]]
-               IN [i \in 1..Len(Ev.obs) |-> E(Ev.obs[i])] = RunIdeal(ideal, 0, calls, 1)
-            /\ UNCHANGED <<keys, mem, levels, files, all, gcd>>
+                   mech == RunOps(Build(ScanExpr(mem, levels, files, B(Ev.lo), B(Ev.hi), MAXTS)), calls, 1)
+               IN IF devUsed = {}
+                  THEN G("scan program = ideal cursor (C03)", [i \in 1..Len(Ev.obs) |-> E(Ev.obs[i])] = RunIdeal(ideal, 0, calls, 1))
+                  ELSE G("scan program = composed cursors on the logged levels (mechanism)", [i \in 1..Len(Ev.obs) |-> E(Ev.obs[i])] = mech)
 
 \* the driver skipped an op that would block a single-threaded run (write stall): nothing changes
 Skip == /\ IsEvent("skip") /\ NoErr
+        /\ UNCHANGED <<keys, mem, levels, files, all, gcd, devUsed>>
         /\ Ev.levels = levels /\ Ev.newfiles = <<>>
         /\ ReadsOk(Ev, all, keys)
-        /\ UNCHANGED <<keys, mem, levels, files, all, gcd>>
 
 TraceNext == Skip \/ Open \/ Write \/ Flush \/ Ingest \/ Compact \/ Reopen \/ Verify \/ ScanProg
 TraceSpec == TraceInit /\ [][TraceNext]_vars
 
 (* invariants evaluated in every state of the trace *)
-InvReadLatest == levels = <<>> \/ ReadLatestAt(mem, levels, files, all, keys)
+InvReadLatest == levels = <<>> \/ devUsed # {} \/ ReadLatestAt(mem, levels, files, all, keys)
 InvNoLoss     == levels = <<>> \/ NoLoss(mem, levels, files, all, gcd)
 InvNoDup      == levels = <<>> \/ NoDuplicates(levels, files)
-InvScan       == levels = <<>> \/ ScanMatchesIdeal(mem, levels, files, all)
+InvScan       == levels = <<>> \/ devUsed # {} \/ ScanMatchesIdeal(mem, levels, files, all)
 
 \* acceptance: the whole trace was consumed
 TraceAccepted ==
